@@ -102,8 +102,12 @@ def explore(run, max_paths=20000):
             except Infeasible:
                 todo.extend(c.todo); nsol += c.nsolver
                 continue
-            except Unsupported:
-                raise
+            except Unsupported as ex:
+                if not c.pc:
+                    raise           # nothing decided yet: the whole contract is outside the engine's reach
+                # only this path is outside the engine's reach: keep its path condition (directed bounded fallback)
+                p.result = None
+                p.exc = ex
             except Exception as ex:  # an exception of the code under proof on a feasible path
                 p.result = None
                 p.exc = ex
